@@ -653,6 +653,12 @@ class Interp(object):
                 return c.ns[name]
         return None
 
+    def has_class_attr(self, cls, name):
+        for c in cls.mro:
+            if name in c.ns:
+                return True
+        return False
+
     def getattr_value(self, v, name):
         if isinstance(v, Obj):
             f = v._f
@@ -661,6 +667,8 @@ class Interp(object):
             if name == "__class__":
                 return v._cls
             a = self.find_class_attr(v._cls, name)
+            if a is None and self.has_class_attr(v._cls, name):
+                return None
             if a is None:
                 for b in v._cls.mro:
                     for rb in b.bases:
@@ -672,6 +680,8 @@ class Interp(object):
             if name == "__name__":
                 return v.name
             a = self.find_class_attr(v, name)
+            if a is None and self.has_class_attr(v, name):
+                return None
             if a is None:
                 raise ProgExc(AttributeError, "%s.%s" % (v.name, name))
             if isinstance(a, StaticVal):
